@@ -186,6 +186,9 @@ fn case_in(ctx: &Ctx, p: &GenProject, t: &mut Tape, rec: &Rec, dir: &Path) -> Ve
     if p.sugared_defs > 0 {
         rec.class("projects_with_tuple_or_anonymous_component_statements");
     }
+    if p.recursive_templates > 0 {
+        rec.class("projects_with_template_instantiating_itself");
+    }
     let ndefs: usize = p.files.iter().map(|f| f.ast.defs.len()).sum();
     let nfind: usize = first.norm.values().sum();
     let cross = p.files.iter().any(|f| f.r.src.contains("component comp"));
